@@ -24,7 +24,7 @@ def plan(ctx):
                                    w4_filter=lambda i: i.startswith(("sig-", "doc-", "const-", "dead-", "future-", "eval", "single", "opt", "comp", "class", "fold-tuple-5")))
             cases += P.w9_cases(ctx, 96)
         else:
-            cases = P.corpus_cases(ctx, v, n_files=300, n_w3=600, modes=30, max_file_bytes=80000)
+            cases = P.corpus_cases(ctx, v, n_files=300, n_w3=600, modes=30, max_file_bytes=60000, w1_max_bytes=150000, max_w4_bytes=40000)
             cases += P.w9_cases(ctx, 2400)
         shards.extend(P.split(ctx, v, cases, k, "C12:"))
     return shards
